@@ -93,7 +93,7 @@ Definition reader_result (s : rstate) (m : rmethod) : ekind :=
 
 (* ACK n on a queue with [pending] un-ACKed events *)
 Definition ack_result (closed : bool) (empty : bool) (tooMany : bool) (zero : bool) : ekind :=
-  if zero then KOk else if closed then KQueueClosed else if empty then KACKEmptyQueue else if tooMany then KACKTooMany else KOk.
+  if closed then KQueueClosed else if zero then KOk else if empty then KACKEmptyQueue else if tooMany then KACKTooMany else KOk.
 
 (* which calls are misuse *)
 Definition tx_misuse (s : txstate) (m : txmethod) : bool :=
